@@ -370,7 +370,7 @@ class Fn:
 
     def render(self):
         edits = [(p, p, o, k, t) for (p, o, k, t) in self.inserts] + \
-                [(s, e, 0, -1, t) for (s, e, t) in self.replaces]
+                [(s, e, 10 ** 6, -1, t) for (s, e, t) in self.replaces]
         edits.sort(key=lambda x: (x[0], x[2], x[3]))
         out, last = [], 0
         for s, e, _, _, t in edits:
